@@ -189,6 +189,44 @@ pub struct StatementLoc<'a> {
     pub(crate) statement: Statement<'a>,
 }
 
+// Labels defined in a statement tree, and gotos found in it (with their position)
+fn collect_labels_and_gotos<'a>(
+    s: &StatementLoc<'a>,
+    labels: &mut Vec<String>,
+    gotos: &mut Vec<(&'a str, usize)>,
+) {
+    if let Some(l) = &s.label {
+        labels.push(l.clone());
+    }
+    match &s.statement {
+        Statement::Block(v) => {
+            for i in v {
+                collect_labels_and_gotos(i, labels, gotos);
+            }
+        }
+        Statement::For { body, .. }
+        | Statement::While { body, .. }
+        | Statement::DoWhile { body, .. } => collect_labels_and_gotos(body, labels, gotos),
+        Statement::If {
+            body, else_body, ..
+        } => {
+            collect_labels_and_gotos(body, labels, gotos);
+            if let Some(e) = else_body {
+                collect_labels_and_gotos(e, labels, gotos);
+            }
+        }
+        Statement::Switch { cases, .. } => {
+            for c in cases {
+                for i in &c.1 {
+                    collect_labels_and_gotos(i, labels, gotos);
+                }
+            }
+        }
+        Statement::Goto(l) => gotos.push((l, s.pos)),
+        _ => (),
+    }
+}
+
 #[derive(Debug)]
 pub struct Function<'a> {
     order: usize,
@@ -1992,6 +2030,15 @@ impl<'a> CompilerState<'a> {
                     }
                     self.function_bank = Some(bank);
                     let code = self.compile_block(pair)?;
+                    // A goto needs its label in the same function
+                    let mut labels = Vec::new();
+                    let mut gotos = Vec::new();
+                    collect_labels_and_gotos(&code, &mut labels, &mut gotos);
+                    for (l, pos) in gotos {
+                        if !labels.iter().any(|x| x == l) {
+                            return Err(self.syntax_error(&format!("Unknown label {}", l), pos));
+                        }
+                    }
                     self.function_bank = None;
                     let f = self.functions.get_mut(&self.current_function).unwrap();
                     f.code = Some(code);
